@@ -131,6 +131,10 @@ func runE2E(c *core.Ctx) {
 		}
 		ds = randomData(c, maxN)
 	}
+	if c.Idx%4 == 2 {
+		ds.Stale = true // the file comes out of an earlier run of obiclean
+		c.Count("inputs_carrying_earlier_obiclean_annotations", 1)
+	}
 	input := filepath.Join(c.Dir, fmt.Sprintf("e2e-%d.fasta", c.Idx))
 	if err := os.WriteFile(input, ds.Fasta(), 0o644); err != nil {
 		c.Inconclusive("cannot write the input file")
